@@ -336,6 +336,154 @@ fn check5(ctx: &Ctx, c: &Case5, probe: &mut Probe) -> Check {
                 evals += 1;
             }
         }
+        // ---- alterations of boundary-transition records themselves. Truth for a record: there is
+        // a genuine segment [start, start+n) of the registered history with the same payload
+        // entries, boundaries, initial-state handle and worldline. validate_btr must accept
+        // exactly the truthful records (logical_counter / auth_tag are documented opaque).
+        {
+            let truthful = |p: &ProvenanceService, r: &warp_core::BoundaryTransitionRecord| -> bool {
+                let a = r.payload.start_worldline_tick.as_u64();
+                let n = r.payload.entries.len() as u64;
+                match p.build_btr(r.worldline_id, wt(a), wt(a + n), r.logical_counter, r.auth_tag.clone()) {
+                    Ok(g) => &g == r,
+                    Err(_) => false,
+                }
+            };
+            let judge_btr = |p: &ProvenanceService, r: &warp_core::BoundaryTransitionRecord, what: &str, probe: &mut Probe| -> Check {
+                let t = truthful(p, r);
+                let v = p.validate_btr(r);
+                match (t, v) {
+                    (true, Ok(())) => probe.class(format!("btr:{what}:truthful-accepted")),
+                    (false, Err(_)) => probe.class(format!("btr:{what}:rejected")),
+                    (true, Err(e)) => vfail!(format!("C05/btr/truthful-record-refused/{what}"), "worldline {wl} [{}..+{}): {e:?}", r.payload.start_worldline_tick.as_u64(), r.payload.entries.len()),
+                    (false, Ok(())) => vfail!(format!("C05/btr/altered-record-validates/{what}"), "worldline {wl} [{}..+{}) against a registered history of {len} ticks", r.payload.start_worldline_tick.as_u64(), r.payload.entries.len()),
+                }
+                Ok(())
+            };
+            // a fabricated successor of the last entry of `r` (self-consistent: next tick, parent = that entry)
+            let fabricate_after = |last: &ProvenanceEntry| -> ProvenanceEntry {
+                let mut f = last.clone();
+                f.worldline_tick = wt(last.worldline_tick.as_u64() + 1);
+                f.parents = vec![warp_core::ProvenanceRef { worldline_id: last.worldline_id, worldline_tick: last.worldline_tick, commit_hash: last.expected.commit_hash }];
+                f.expected.state_root[0] ^= 0x5a;
+                f
+            };
+            let mut segs: Vec<(u64, u64)> = Vec::new();
+            for a in 0..len {
+                for b in a + 1..=len {
+                    if len <= 5 || a == 0 || b == len || (a + b) % 3 == 0 {
+                        segs.push((a, b));
+                    }
+                }
+            }
+            for (a, b) in segs {
+                let g = p.build_btr(id, wt(a), wt(b), 3, vec![9]).map_err(|e| Fail::new("C05/untampered-btr-fails", format!("[{a},{b}): {e:?}")))?;
+                let mut alts: Vec<(&str, warp_core::BoundaryTransitionRecord)> = Vec::new();
+                let mut r = g.clone();
+                r.input_boundary_hash[7] ^= 1;
+                alts.push(("input-boundary", r));
+                let mut r = g.clone();
+                r.output_boundary_hash[7] ^= 1;
+                alts.push(("output-boundary", r));
+                let mut r = g.clone();
+                r.u0_ref.0[3] ^= 1;
+                alts.push(("u0-ref", r));
+                let mut r = g.clone();
+                r.logical_counter ^= 0xff;
+                r.auth_tag.push(1);
+                alts.push(("opaque-fields", r));
+                // drop the first entry, with and without re-deriving start and input boundary
+                if b - a >= 2 {
+                    let mut r = g.clone();
+                    r.payload.entries.remove(0);
+                    alts.push(("drop-first-only", r.clone()));
+                    r.payload.start_worldline_tick = wt(a + 1);
+                    alts.push(("drop-first-restart", r.clone()));
+                    r.input_boundary_hash = g.payload.entries[0].expected.state_root;
+                    alts.push(("drop-first-rederived", r));
+                    let mut r = g.clone();
+                    r.payload.entries.pop();
+                    alts.push(("drop-last-only", r.clone()));
+                    r.output_boundary_hash = r.payload.entries.last().unwrap().expected.state_root;
+                    alts.push(("drop-last-rederived", r));
+                    let mut r = g.clone();
+                    r.payload.entries.swap(0, 1);
+                    alts.push(("swap-entries", r));
+                }
+                // extend past the end of the segment: by the genuine next entry when there is one,
+                // by a fabricated self-consistent entry otherwise (a record reaching past the tip)
+                {
+                    let last = g.payload.entries.last().unwrap();
+                    let next = if b < len { p.entry(id, wt(b)).unwrap() } else { fabricate_after(last) };
+                    let mut r = g.clone();
+                    r.payload.entries.push(next.clone());
+                    alts.push((if b < len { "extend-genuine-only" } else { "extend-past-tip-only" }, r.clone()));
+                    r.output_boundary_hash = next.expected.state_root;
+                    alts.push((if b < len { "extend-genuine-rederived" } else { "extend-past-tip-rederived" }, r.clone()));
+                    if b < len {
+                        // genuine next tick, fabricated content
+                        let mut r2 = g.clone();
+                        let f = fabricate_after(last);
+                        r2.output_boundary_hash = f.expected.state_root;
+                        r2.payload.entries.push(f);
+                        alts.push(("extend-fabricated-inside-history", r2));
+                    }
+                }
+                // a record lying entirely past the tip
+                if b == len {
+                    let last = g.payload.entries.last().unwrap();
+                    let f = fabricate_after(last);
+                    let r = warp_core::BoundaryTransitionRecord {
+                        worldline_id: g.worldline_id,
+                        u0_ref: g.u0_ref,
+                        input_boundary_hash: last.expected.state_root,
+                        output_boundary_hash: f.expected.state_root,
+                        payload: warp_core::BtrPayload { worldline_id: g.worldline_id, start_worldline_tick: wt(len), entries: vec![f] },
+                        logical_counter: 1,
+                        auth_tag: vec![],
+                    };
+                    alts.push(("entirely-past-tip", r));
+                }
+                // one altered field inside a payload entry (sampled fields)
+                for (k, field) in fields.iter().enumerate() {
+                    if (k as u64 + a + b) % 7 != 0 {
+                        continue;
+                    }
+                    let mut r = g.clone();
+                    let ix = ((k as u64) % (b - a)) as usize;
+                    if tamper(&mut r.payload.entries[ix], field) {
+                        if ix + 1 == r.payload.entries.len() {
+                            r.output_boundary_hash = r.payload.entries[ix].expected.state_root;
+                        }
+                        alts.push(("entry-field", r));
+                    }
+                }
+                for (what, r) in &alts {
+                    judge_btr(p, r, what, probe)?;
+                    evals += 1;
+                }
+                // the same genuine record against a SHORTER registered history (its suffix was
+                // rolled back): rebuilt service holding the first k entries only
+                if b == len && len >= 2 {
+                    for k in [a.max(1), len - 1] {
+                        if k >= b || k == 0 {
+                            continue;
+                        }
+                        // a service holding the first k entries only
+                        let mut ps = ProvenanceService::new();
+                        ps.register_worldline(id, init).map_err(|e| Fail::new("C05/harness", format!("{e:?}")))?;
+                        let mut ok = true;
+                        for tt in 0..k {
+                            ok &= ps.append_local_commit(p.entry(id, wt(tt)).unwrap()).is_ok();
+                        }
+                        if ok {
+                            judge_btr(&ps, &g, "record-outlives-rolled-back-suffix", probe)?;
+                            evals += 1;
+                        }
+                    }
+                }
+            }
+        }
         // append with wrong tick / duplicate tick / bad parent is refused
         {
             let mut p2 = p.clone();
